@@ -175,11 +175,37 @@ def _subscription_resolver(root, ctx, info, **kwargs):
     return later()
 
 
+class _SnapErr:
+    def __init__(self, d):
+        self._d = d
+
+    def to_dict(self):
+        return self._d
+
+
+class _Snap:
+    """A result as it was when it was handed to the consumer."""
+
+    def __init__(self, r):
+        import copy
+        self._resp = copy.deepcopy(r.response())
+        self.data = copy.deepcopy(r.data)
+        self.errors = [_SnapErr(copy.deepcopy(e.to_dict()))
+                       for e in (r.errors or [])]
+
+    def response(self):
+        return self._resp
+
+    def json(self):
+        import json
+        return json.dumps(self._resp)
+
+
 class SubPlan:
     __slots__ = ("idx", "op", "text", "n", "delays", "pauses", "source_kind",
                  "sub_async", "faults", "wseeds", "exps", "scenario",
                  "initial_value", "async_for", "event_values",
-                 "read_timeouts", "crash")
+                 "read_timeouts", "crash", "long", "shared")
 
 
 REFUSALS = ("two-fields", "two-aliases", "two-via-fragment",
@@ -317,10 +343,22 @@ def _plan(draws, spec, idx, scenario, sync_only=False):
     plan.op = op
     plan.text = render(op, rs.below(4, "layout"), bool(rs.below(2, "frags_first")))
     plan.n = rs.below(9, "n_events")
-    plan.delays = [DELAYS[rs.below(len(DELAYS), "delay")]
-                   for _ in range(plan.n)]
-    plan.pauses = [DELAYS[rs.below(len(DELAYS), "pause")]
-                   for _ in range(plan.n + 1)]
+    plan.long = False
+    plan.shared = False
+    if scenario == "ok" and rs.chance(1, 160, "long_stream"):
+        # a stream that stays open: more than a thousand events, nearly all of
+        # them failing somewhere -- whatever the executor shared by all events
+        # accumulates (counters, caches, lists) has time to matter
+        plan.long = True
+        plan.n = 1050 + rs.below(300, "long_n")
+    if plan.long:
+        plan.delays = [DELAYS[0]] * plan.n
+        plan.pauses = [DELAYS[0]] * (plan.n + 1)
+    else:
+        plan.delays = [DELAYS[rs.below(len(DELAYS), "delay")]
+                       for _ in range(plan.n)]
+        plan.pauses = [DELAYS[rs.below(len(DELAYS), "pause")]
+                       for _ in range(plan.n + 1)]
     plan.source_kind = SOURCES[rs.below(len(SOURCES), "source")]
     plan.initial_value = ("IV%d" % idx) if rs.below(2, "initial") else None
     plan.async_for = bool(rs.below(2, "async_for"))
@@ -336,13 +374,18 @@ def _plan(draws, spec, idx, scenario, sync_only=False):
     plan.sub_async = None
     if rs.chance(1, 2, "sub_async"):
         plan.sub_async = DELAYS[rs.below(len(DELAYS), "sub_lat")]
-    plan.wseeds = [rs.below(1 << 30, "wseed") for _ in range(plan.n)]
-    # an event may be any value the application likes, None included
-    plan.event_values = [
-        None if rs.chance(1, 8, "none_event") else
-        (AwaitableEvent(idx, k) if rs.chance(1, 8, "awaitable_event")
-         else Event(idx, k))
-        for k in range(plan.n)]
+    if plan.long:
+        w0 = rs.below(1 << 30, "wseed")
+        plan.wseeds = [(w0 + 7919 * k) % (1 << 30) for k in range(plan.n)]
+        plan.event_values = [Event(idx, k) for k in range(plan.n)]
+    else:
+        plan.wseeds = [rs.below(1 << 30, "wseed") for _ in range(plan.n)]
+        # an event may be any value the application likes, None included
+        plan.event_values = [
+            None if rs.chance(1, 8, "none_event") else
+            (AwaitableEvent(idx, k) if rs.chance(1, 8, "awaitable_event")
+             else Event(idx, k))
+            for k in range(plan.n)]
     plan.faults = [dict() for _ in range(plan.n)]
     plan.exps = []
     plan.crash = set()
@@ -352,7 +395,15 @@ def _plan(draws, spec, idx, scenario, sync_only=False):
             ev = plan.event_values[k]
             base = expected_response(spec, op, World(spec, plan.wseeds[k]),
                                      root_value=ev)
-            nf = fs.weighted((3, 3, 2), "n_faults")
+            if plan.long:
+                # (derived, not drawn: the recording stays short)
+                if base.positions:
+                    path, what = base.positions[
+                        (k * 2654435761 >> 7) % len(base.positions)]
+                    plan.faults[k][path] = "null" if what == "item" else "err"
+                nf = 0
+            else:
+                nf = fs.weighted((3, 3, 2), "n_faults")
             for _ in range(nf):
                 if not base.positions:
                     break
@@ -360,9 +411,34 @@ def _plan(draws, spec, idx, scenario, sync_only=False):
                     fs.below(len(base.positions), "fault_at")]
                 plan.faults[k][path] = "null" if what == "item" else (
                     "err", "null", "errx", "errs")[fs.below(4, "fault_kind")]
-            plan.exps.append(expected_response(
+            plan.exps.append(None)
+        # Fault: ONE ResolverError instance (a module-level NOT_FOUND, an
+        # error kept by a failed shared future) raised while processing
+        # several events, at whatever position each of them meets it.  Every
+        # result is judged as it was when it was handed to the consumer (the
+        # library hands back the application's own exception objects, and
+        # records path and nodes on them: a result kept for later shows what
+        # the LAST event wrote -- the listed C10 finding, not this clause).
+        if plan.n >= 2 and not plan.long and fs.chance(1, 6, "shared_error"):
+            ks = sorted({fs.below(plan.n, "shared_ev") for _ in range(3)})
+            if len(ks) >= 2:
+                for k in ks:
+                    base = expected_response(
+                        spec, op, World(spec, plan.wseeds[k]),
+                        root_value=plan.event_values[k])
+                    cand = [p for p, what in base.positions
+                            if what == "field"]
+                    if cand:
+                        plan.faults[k] = {
+                            p: f for p, f in plan.faults[k].items()
+                            if f == "null"}
+                        plan.faults[k][cand[fs.below(len(cand),
+                                                     "shared_at")]] = "errsh"
+                        plan.shared = True
+        for k in range(plan.n):
+            plan.exps[k] = expected_response(
                 spec, op, World(spec, plan.wseeds[k], plan.faults[k]),
-                root_value=ev))
+                root_value=plan.event_values[k])
         # Fault: the processing of ONE event dies of an unexpected exception
         # (after its other fields may have recorded resolver errors).  The
         # consumer catches it and goes on reading: whatever it is handed
@@ -375,6 +451,7 @@ def _plan(draws, spec, idx, scenario, sync_only=False):
         # the executor shared by all events -- an aftermath of unexpected
         # exceptions that no clause covers (DESIGN 8.5).
         if plan.n >= 2 and not plan.async_for and sync_only and \
+                not plan.long and not plan.shared and \
                 _all_sync(spec, op) and fs.chance(1, 2, "crash_event"):
             k = fs.below(plan.n - 1, "crash_at")
             ev = plan.event_values[k]
@@ -512,7 +589,7 @@ def run_case(draws, prop, tier="quick"):
                 await loop.sleep(plan.pauses[0])
                 async for r in stream:
                     kernel.log.add("delivered", None, (plan.idx, k))
-                    got.append(("result", r))
+                    got.append(("result", _Snap(r) if plan.shared else r))
                     k += 1
                     if k > plan.n + 3:
                         got.append(("overrun", None))
@@ -562,7 +639,7 @@ def run_case(draws, prop, tier="quick"):
                 got.append(("raised", err))
                 break
             kernel.log.add("delivered", None, (plan.idx, k))
-            got.append(("result", r))
+            got.append(("result", _Snap(r) if plan.shared else r))
             k += 1
             if k > plan.n + 3:
                 got.append(("overrun", None))
@@ -701,7 +778,12 @@ def run_case(draws, prop, tier="quick"):
                                "events processed %r" % (ctx.events_seen,)))
         for k, r in pairs:
             exp = plan.exps[k]
-            vs = oracles.check_response(P, "asyncio", exp, r)
+            # (one error instance raised in several events keeps the nodes it
+            # was given first -- part of the listed shared-instance finding of
+            # C10 -- so locations are not compared for those plans; paths,
+            # messages, counts and data are)
+            vs = oracles.check_response(P, "asyncio", exp, r,
+                                        locations=not plan.shared)
             for v in vs:
                 # attribute foreign errors to the isolation clause
                 if v.oracle == "error_multiset" and v.key[1] == "extra":
